@@ -283,6 +283,26 @@ fn record_wmc_params(rng: &mut Rng, out: &mut Out, nmax: usize) {
     out.emit(ev);
 }
 
+/// Cnf::from_string: "(-1 || 3 || 2) && (1)" - 0-based labels, the sign carries the polarity. As coded a literal is negative when the
+/// parsed integer is <= 0, so "0" and "-0" both read as the NEGATIVE literal of label 0 and its positive literal has no spelling
+/// (named deviation `ZeroIsNegative` in TraceExtras.tla).
+fn record_cnf_text(rng: &mut Rng, out: &mut Out, u: usize) {
+    let nc = rng.range(1, 4);
+    let cls: Vec<Vec<i64>> = (0..nc)
+        .map(|_| (0..rng.range(1, 3)).map(|_| { let v = rng.below(u) as i64; if rng.coin() { v } else { -v } }).collect())
+        .collect();
+    let text = cls.iter().map(|c| format!("({})", c.iter().map(|x| x.to_string()).collect::<Vec<_>>().join(" || "))).collect::<Vec<_>>().join(" && ");
+    let mut ev = json!({"ev": "cnf_text", "in": cls, "text": text});
+    match guarded(|| Cnf::from_string(&text)) {
+        Ok(c) => {
+            ev["parsed"] = json!(c.clauses().iter().map(|cl| cl.iter().map(|l| vec![l.label().value() as i64, l.polarity() as i64]).collect::<Vec<_>>()).collect::<Vec<_>>());
+            ev["nv"] = json!(c.num_vars());
+        }
+        Err(m) => ev["panic"] = json!(m),
+    }
+    out.emit(ev);
+}
+
 pub fn record(args: &Args) {
     let seed = args.num("seed", 1);
     let segments = args.num("segments", 40) as usize;
@@ -298,6 +318,7 @@ pub fn record(args: &Args) {
         }
         record_order_queries(&mut rng, &mut out, u);
         record_wmc_params(&mut rng, &mut out, u);
+        record_cnf_text(&mut rng, &mut out, u);
     }
     out.flush();
 }
